@@ -129,7 +129,9 @@ func classify(h int, readerIsServer, comp bool, f nextFrame) (class int, kind st
 		if !f.Fin {
 			kinds = append(kinds, "control-fragmented")
 		}
-		if f.LenCls >= lc126 && f.LenCls != lcNonMinimal {
+		if f.LenCls >= lc126 {
+			// includes lcNonMinimal: a control frame announcing the 16/64-bit length form is
+			// refused whatever length follows (RFC 6455 5.5: <=125 and, by 5.2, the 7-bit form)
 			kinds = append(kinds, "control-too-long")
 		}
 	case data:
@@ -197,7 +199,7 @@ func init() {
 		Required:     []string{"violating_frames_rejected", "legal_frames_accepted", "close_1002_seen"},
 		Assumptions: []string{
 			"exhaustive at the abstraction of the rule (length classes and 6 histories stand for all lengths and all histories)",
-			"UNSPECIFIED cells (RSV1 on continuation/control frames or on first frames whose payload is not a DEFLATE stream when compression is negotiated, non-minimal length encodings, 1-byte close bodies, close codes 1012-1014, 2^63-1 lengths) are executed but no outcome is demanded",
+			"UNSPECIFIED cells (RSV1 on continuation/control frames or on first frames whose payload is not a DEFLATE stream when compression is negotiated, non-minimal length encodings of data frames, 1-byte close bodies, close codes 1012-1014, 2^63-1 lengths) are executed but no outcome is demanded",
 		},
 	})
 }
